@@ -59,6 +59,8 @@ def gen_c15(r):
         idx = [k, m]
     elif k == "slice":
         idx = rnd_slice(r, n)
+        if n > 20 and r.random() < 0.6:             # strides of the order of the array length (few cells kept out of many runs)
+            idx[3] = r.choice([-1, 1]) * r.choice([33, 64, 65, 70, 99, 100, 127, n - 1, n])
     elif k == "windows":
         w = r.randint(1, 4)
         st = [r.randint(0, n - 1) for _ in range(w)]
@@ -113,7 +115,7 @@ def gen_c16(r):
         return ["rl_reduce", name, dt, rnd_runs(r, dt, n, nan_ok=False, small=True)], {"how": r.choice(["np", "method"]), "via": r.choice(RLV)}, False
     if k == "hist":
         hdt = r.choice(["i8", "f8", "u1", "i2"])
-        return ["rl_hist", hdt, rnd_runs(r, hdt, n, nan_ok=False), r.choice([0, 0, 3, 7])], {}, False
+        return ["rl_hist", hdt, rnd_runs(r, hdt, n, nan_ok=False), r.choice([0, 0, 3, 7])], {"density": r.random() < 0.4, "hrange": r.choice([None, None, [0, 5], [-3, 3], [1, 100]])}, False
     mixed = r.random() < 0.4
     arrs = []
     for _ in range(r.randint(1, 4)):
@@ -201,6 +203,7 @@ def generate(prop, seed, n):
     for i in range(n):
         case, opts, strict = GEN[prop](r)
         if prop == "C17":
+            opts = dict(opts, mlayout=r.choice(["C", "C", "F", "T"]))
             opts = dict(opts, ravia=r.choice(["rows", "rows", "rowview", "listview", "revview", "colview", "stepview", "ufunc", "flat", "assigned"]))
         if prop in ("C14", "C15", "C16", "C17"):
             opts = dict(opts, hi=r.choice([0, 48, 48, 16]))          # the high-bits realisation, where exec_rl.hi_ok allows it
